@@ -91,6 +91,11 @@ class ConstBuilder(exprgen.Builder):
             body = "0%o" % v if v else "0"
         else:
             body = "0b" + bin(v)[2:]
+        # any suffix (also a shorter one, or none) under which the value gets exactly type t: `0x100000000u` is unsigned long
+        # by magnitude, `0x80000000` unsigned int, `2147483648` long
+        cands = [x for x in ("", "u", "U", "l", "L", "ul", "UL", "lu", "Lu", "ll", "LL", "ull", "ULL", "llu", "LLU") if literal_type(body + x) is t]
+        if cands and d(st.booleans()):
+            return body + d(st.sampled_from(cands))
         return body + suf if literal_type(body + suf) is t else cm.literal(v, t)
 
     def float_spelling(self, v, t):
